@@ -181,6 +181,22 @@ static void check_log_case(const Op &op) {
   ref::LogDecode rd = ref::log_decode(file);
   if (rd.records != all || rd.corruption_events) VF_FAIL("C15", "reference decoder disagrees on lcdb's bytes (%zu records)", rd.records.size());
   g_rep->count("log.roundtrips");
+  {
+    // classification of the generated log
+    bool multi = false, exact = false, empty_rec = false;
+    for (auto &r : all) {
+      if (r.size() > ref::kLogBlock - ref::kLogHeader) multi = true;
+      if (r.empty()) empty_rec = true;
+    }
+    size_t pos = 0;
+    for (size_t i = 0; i < rd.record_end.size(); i++) { pos = rd.record_end[i]; size_t left = ref::kLogBlock - pos % ref::kLogBlock; if (left < ref::kLogHeader || left == ref::kLogBlock || left == ref::kLogHeader) exact = true; }
+    if (multi) g_rep->count("class.record_spans_blocks");
+    if (exact) g_rep->count("class.record_ends_within_7_bytes_of_block_end");
+    if (empty_rec) g_rep->count("class.empty_record");
+    if (!a.empty()) g_rep->count("class.second_writer_on_existing_log");
+    if (file.size() > ref::kLogBlock) g_rep->count("class.log>1block");
+    if (op.has("cuts")) g_rep->count(op.get("cuts") == "all" ? "class.every_cut_offset" : "class.selected_cut_offsets");
+  }
   uint64_t fp = fnv1a(op.str());
   if (frag) g_rep->fp("C15.nt", fp);
   // 3. truncation
@@ -273,6 +289,9 @@ static void check_log_case(const Op &op) {
       VF_FAIL("C15", "after altering %ld byte(s) at %ld (mode %c val %ld) lcdb's reader returns %zu records, the reference decoder %zu", len, off, mode, val, g3.size(), dd.records.size());
     }
     g_rep->count("log.alterations");
+    g_rep->count(mode == 'x' ? (len > 1 ? "class.alter_xor_run" : "class.alter_bitflip") : mode == 's' ? "class.alter_set_byte" : "class.alter_zero_fill");
+    g_rep->count((size_t)(off % (long)ref::kLogBlock) < 64 ? "class.alter_near_block_start" : "class.alter_inside_block");
+    if (missing) g_rep->count(r3.calls ? "class.alter_loss_reported" : "class.alter_loss_silent_torn_tail_or_known"); else g_rep->count("class.alter_no_record_lost");
     g_rep->fp("C15.nt", fnv1a(op.str() + "/mut"));
   }
 }
